@@ -172,6 +172,10 @@ fn check(ctx: &mut Ctx, ops: &[Op]) {
                 ctx.oracle_fail("rendered INSERT is not rectangular: a row does not match the column list", v);
             }
         }
+        // oracle: a declared column list is rendered; default rows are written only when no column was declared
+        if !dead && exp_cols > 0 && shape.starts_with("default") {
+            ctx.oracle_fail("the declared column list is not rendered: the statement inserts default rows instead", serde_json::json!({"history": line, "backend": bn, "rendered": shape, "columns": exp_cols}));
+        }
         if !dead && shape.starts_with("unparsed") { ctx.oracle_fail("rendered INSERT has an unexpected form", serde_json::json!({"history": line, "backend": bn, "rendered": shape})); }
     }
     ctx.count(&format!("len.{}", ops.len()));
@@ -203,5 +207,42 @@ pub fn run(ctx: &mut Ctx) {
         let len = r.below(10) as usize;
         let ops: Vec<Op> = (0..len).map(|_| { let k = r.below(7) as usize; match r.below(10) { 0..=2 => Op::Columns(k), 3..=6 => Op::Values(k), 7 => Op::ValuesPanic(k), 8 => Op::SelectFrom(k), _ => if r.chance(1, 2) { Op::Defaults(1 + k) } else { Op::ValuesFrom((0..r.below(4)).map(|_| if r.chance(2, 3) { k } else { r.below(5) as usize }).collect()) } } }).collect();
         check(ctx, &ops);
+    }
+    // ---- select lists of every shape (values, columns, `*`, `t.*`, sub-selects, function calls): the count that must match the column
+    // list is the number of select items, whatever they are; a rejected select leaves the statement (and rows accepted before) untouched
+    let m = if thorough { 20000 } else { 2000 };
+    for _ in 0..m {
+        let mut r = ctx.rng.fork();
+        let ncols = r.below(5) as usize;
+        let nitems = r.below(5) as usize;
+        let mut st = Query::insert();
+        st.into_table(Alias::new("t"));
+        st.columns((0..ncols).map(|i| Alias::new(format!("c{i}"))));
+        let had_row = r.chance(1, 2);
+        if had_row { let _ = st.values((0..ncols).map(|i| Expr::val(i as i32).into())); }
+        let mut sel = Query::select();
+        let mut shape = Vec::new();
+        for k in 0..nitems {
+            match r.below(6) {
+                0 => { sel.column(Asterisk); shape.push("*"); }
+                1 => { sel.column((Alias::new("u"), Asterisk)); shape.push("u.*"); }
+                2 => { sel.expr(Expr::col(Asterisk)); shape.push("expr(*)"); }
+                3 => { sel.column(Alias::new(format!("x{k}"))); shape.push("col"); }
+                4 => { sel.expr(Func::max(Expr::col(Alias::new("y")))); shape.push("fn"); }
+                _ => { sel.expr(Expr::val(k as i32)); shape.push("val"); }
+            }
+        }
+        sel.from(Alias::new("u"));
+        let before = st.clone();
+        let line = format!("select_from columns={ncols} items=[{}] row_before={had_row}", shape.join(", "));
+        ctx.eval_only(&line, true);
+        ctx.count("select_from.shapes");
+        match st.select_from(sel) {
+            Ok(_) => { if nitems != ncols { ctx.oracle_fail("select_from accepted a select list of the wrong length", serde_json::json!({"history": line})); } }
+            Err(sea_query::error::Error::ColValNumMismatch { col_len, val_len }) => {
+                if nitems == ncols || col_len != ncols || val_len != nitems { ctx.oracle_fail("select_from mismatch error is wrong", serde_json::json!({"history": line, "col_len": col_len, "val_len": val_len})); }
+                if st != before { ctx.oracle_fail("a rejected select_from changed the statement", serde_json::json!({"history": line})); }
+            }
+        }
     }
 }
